@@ -309,6 +309,9 @@ class AbstractOnlineSpecification(AbstractSpecification):
         if isinstance(self.online_interpreter, AbstractDiscreteTimeOnlineInterpreter) and hasattr(self.pastifier, 'step'):
             # one step of next / s_next lasts one sampling period
             self.pastifier.step = Fraction(self.online_interpreter.get_sampling_period()) / self.ast.U[self.ast.unit]
+        elif isinstance(self.online_interpreter, AbstractDenseTimeOnlineInterpreter) and hasattr(self.pastifier, 'step'):
+            # dense time has no next step: next / s_next are rejected, as without pastify()
+            self.pastifier.step = None
         self.ast = self.pastifier.pastify(self.ast)
 
     # forwarding to interpreter
